@@ -153,7 +153,12 @@ class CallMixin:
         if c is not None and c.inline or info.key in self.transparent \
                 or self.inline_all:
             return self.call_inline(info, env, st, node)
-        raise OutOfReach("call to %s: no contract and not transparent" % info.key)
+        if c is None:
+            # a helper without a contract (e.g. introduced by a refactoring):
+            # treated as transparent; its loops still need invariants
+            self.stats["inlined_uncontracted"].add(info.key)
+            return self.call_inline(info, env, st, node)
+        raise OutOfReach("call to %s: contract not usable here" % info.key)
 
     def call_inline(self, info, env, st, node=None):
         if self.depth > 12:
@@ -438,6 +443,33 @@ class CallMixin:
             m = st.obj(v).cls.find_method("__abs__")
             return self.call_func(FuncRef(m), [v], {}, st, node)
         return z_abs(v)
+
+    def b_math_fmod(self, args, kws, st, node):
+        a, b = args
+        self.need_nonzero(b, st, node)
+        if not is_z3(a) and not is_z3(b):
+            import math
+            return math.fmod(a, b)
+        za, zb_ = coerce2(a, b)
+        if not z3.is_real(za):
+            za, zb_ = z3.ToReal(za), z3.ToReal(zb_)
+        q = za / zb_
+        tq = z3.If(q >= 0, z3.ToReal(z3.ToInt(q)), -z3.ToReal(z3.ToInt(-q)))
+        return za - zb_ * tq
+
+    def b_math_isclose(self, args, kws, st, node):
+        a, b = args[0], args[1]
+        rel = kws.get("rel_tol", 1e-09)
+        ab = kws.get("abs_tol", 0.0)
+        if is_z3(rel) or is_z3(ab):
+            raise OutOfReach("symbolic tolerance")
+        diff = z_abs(self.arith(ast.Sub(), a, b, st, node))
+        m = self.b_max([z_abs(a), z_abs(b)], {}, st, node)
+        bound = self.b_max([self.arith(ast.Mult(), rel, m, st, node), ab], {}, st, node)
+        return self.num_cmp(ast.LtE(), diff, bound)
+
+    def b_math_trunc(self, args, kws, st, node):
+        return trunc_int(args[0])
 
     def b_math_floor(self, args, kws, st, node):
         return floor_int(args[0])
